@@ -22,178 +22,16 @@ P = "C13"
 
 
 def run(repo: Repo, rep: Report):
-    po = repo["svg_pathops"]
-    st = repo["svg_types"]
-    folder = Folder(repo)
-    res = Resolver(repo)
+    from sa.rules import sempath
     for rid, txt in [
-        ("R-TABLE.skia", "fill-rule / command / verb tables map to the same-named Skia members"),
-        ("R-GUARD.do_pathop", "_do_pathop: operand i with rule i, left fold with fix_winding, final simplify on every path, no unsimplified return"),
-        ("R-SITE.pathop-wrappers", "union/intersection/difference pass their PathOp; shape-level wrappers pair operands with clip_rule / explicit rules"),
-        ("R-EFFECT.pathops-errors", "no PathOpsError/Exception handler in the closure of the four operations"),
+        ("R-TABLE.skia", "skia_path / svg_commands interpreted against the abstract engine: M L Q C Z build moveTo lineTo quadTo cubicTo close with the arguments in order and read back as the same letters; nonzero -> WINDING, evenodd -> EVEN_ODD; unknown rule or command raises ValueError"),
+        ("R-GUARD.do_pathop", "union/intersection/difference/remove_overlaps/path_area interpreted on 1-3 operands (rule permutations, empty operands, one outline under two rules): the region requested from the engine equals, up to the laws of set algebra, the left fold of the named operation over every operand under its own rule; the returned contours come from a fix_winding=True call"),
+        ("R-SITE.pathop-wrappers", "svg_types.union/intersection/difference and SVGPath.remove_overlaps interpreted on shapes: every shape is sent, in order, under its clip_rule (or the explicit rule list); remove_overlaps marks its result nonzero"),
+        ("R-EFFECT.pathops-errors", "with an engine whose op / simplify raises PathOpsError, each of the operations raises that error instead of returning a path"),
     ]:
         rep.rule(rid, txt)
-    # ---- tables
-    ft = folder.table("svg_pathops", "_SVG_FILL_RULE_TO_SKIA_FILL_TYPE")
-    want = {"nonzero": "FillType.WINDING", "evenodd": "FillType.EVEN_ODD"}
-    got = {k: (v.name if isinstance(v, Ref) else str(v)) for k, v in ft.items()}
-    rep.tables.add("svg_pathops._SVG_FILL_RULE_TO_SKIA_FILL_TYPE")
-    if got != want:
-        rep.fail("R-TABLE.skia", "svg_pathops._SVG_FILL_RULE_TO_SKIA_FILL_TYPE", str(got), f"fill-rule table is {got}, must be {want}", po)
-    else:
-        rep.ok("R-TABLE.skia", "svg_pathops._SVG_FILL_RULE_TO_SKIA_FILL_TYPE", "nonzero->WINDING, evenodd->EVEN_ODD")
-    ct = folder.table("svg_pathops", "_SVG_CMD_TO_SKIA_FN")
-    wantc = {"M": "Path.moveTo", "L": "Path.lineTo", "Q": "Path.quadTo", "C": "Path.cubicTo", "Z": "Path.close"}
-    gotc = {k: (v.name if isinstance(v, Ref) else str(v)) for k, v in ct.items()}
-    if gotc != wantc:
-        rep.fail("R-TABLE.skia", "svg_pathops._SVG_CMD_TO_SKIA_FN", str(gotc), f"command table is {gotc}, must be {wantc}", po)
-    else:
-        rep.ok("R-TABLE.skia", "svg_pathops._SVG_CMD_TO_SKIA_FN", "M L Q C Z -> moveTo lineTo quadTo cubicTo close")
-    vt = folder.table("svg_pathops", "_SKIA_CMD_TO_SVG_CMD")
-    wantv = {"PathVerb.MOVE": "M", "PathVerb.LINE": "L", "PathVerb.QUAD": "Q", "PathVerb.CUBIC": "C", "PathVerb.CLOSE": "Z"}
-    gotv = {}
-    for k, v in vt.items():
-        kk = k.name if isinstance(k, Ref) else str(k)
-        gotv[kk] = v.args[0] if isinstance(v, Partial) and v.args and isinstance(v.func, Ref) and v.func.name == "_skia_pts_to_svg" else repr(v)
-    if gotv != wantv:
-        rep.fail("R-TABLE.skia", "svg_pathops._SKIA_CMD_TO_SVG_CMD", str(gotv), f"verb table is {gotv}, must be {wantv} (no conic entry)", po)
-    else:
-        rep.ok("R-TABLE.skia", "svg_pathops._SKIA_CMD_TO_SVG_CMD", "inverse of the command table on verbs, conics absent")
-    sk = po.func("skia_path")
-    t = unparse(sk)
-    rep.saw("svg_pathops.skia_path", "svg_pathops.svg_commands", "svg_pathops._skia_pts_to_svg")
-    if "_SVG_FILL_RULE_TO_SKIA_FILL_TYPE[fill_rule]" in t and "except KeyError" in t and "raise ValueError" in t and "pathops.Path(fillType=fill_type)" in t \
-            and "if cmd not in _SVG_CMD_TO_SKIA_FN" in t and "_SVG_CMD_TO_SKIA_FN[cmd](sk_path, *args)" in t:
-        rep.ok("R-TABLE.skia", "svg_pathops.skia_path", "unknown rule / command raises ValueError; path built with the looked-up fill type; builders called with the arguments in order")
-    else:
-        rep.fail("R-TABLE.skia", "svg_pathops.skia_path", "pathops.Path(fillType=_SVG_FILL_RULE_TO_SKIA_FILL_TYPE[fill_rule])", "skia_path no longer builds the path with the rule's fill type / validates commands", po, sk)
-    pts = po.func("_skia_pts_to_svg")
-    if "yield (svg_cmd, tuple((c for pt in points for c in pt)))" in unparse(pts):
-        rep.ok("R-TABLE.skia", "svg_pathops._skia_pts_to_svg", "points flattened in order x0,y0,x1,y1,...")
-    else:
-        rep.fail("R-TABLE.skia", "svg_pathops._skia_pts_to_svg", "tuple(c for pt in points for c in pt)", "Skia points are no longer flattened in x,y order", po, pts)
-
-    # ---- _do_pathop
-    fn = po.func("_do_pathop")
-    F = "svg_pathops._do_pathop"
-    rep.saw(F)
-    t = unparse(fn)
-    first = [n for n in walk_no_nested(fn) if isinstance(n, ast.Assign) and isinstance(n.value, ast.Call) and call_name(n.value) == "skia_path"
-             and not isinstance(parent(n), ast.For)]
-    if first and [unparse(a) for a in first[0].value.args] == ["svg_cmd_seqs[0]", "fill_rules[0]"]:
-        rep.ok("R-GUARD.do_pathop", f"{F}: first operand built with fill_rules[0]", "", True)
-    else:
-        rep.fail("R-GUARD.do_pathop", F, "sk_path = skia_path(svg_cmd_seqs[0], fill_rules[0])", "the first operand is not built with its own fill rule", po, fn)
-    loops = [l for l in walk_no_nested(fn) if isinstance(l, ast.For)]
-    ok_loop = False
-    for l in loops:
-        if unparse(l.iter) == "zip(svg_cmd_seqs[1:], fill_rules[1:])":
-            body = unparse(l)
-            tgt = unparse(l.target)
-            names = [e.id for e in l.target.elts] if isinstance(l.target, ast.Tuple) else []
-            if len(names) == 2 and f"skia_path({names[0]}, {names[1]})" in body:
-                ops = [c for c in ast.walk(l) if isinstance(c, ast.Call) and call_name(c) == "pathops.op"]
-                if ops and [unparse(a) for a in ops[0].args[:3]] == ["sk_path", "sk_path2", "op"] and _true_kw(ops[0], "fix_winding") \
-                        and any(isinstance(s, ast.Assign) and unparse(s.targets[0]) == "sk_path" and s.value is ops[0] for s in l.body):
-                    if not any(isinstance(x, (ast.Break, ast.Continue, ast.Return)) for x in ast.walk(l)):
-                        ok_loop = True
-    if ok_loop:
-        rep.ok("R-GUARD.do_pathop", f"{F}: sk_path = pathops.op(sk_path, skia_path(cmds_i, rule_i), op, fix_winding=True) for every remaining operand, in order", "left fold: difference = first minus the rest", True)
-    else:
-        rep.fail("R-GUARD.do_pathop", F, "for svg_cmds, fill_rule in zip(svg_cmd_seqs[1:], fill_rules[1:]): sk_path = pathops.op(sk_path, skia_path(svg_cmds, fill_rule), op, fix_winding=True)",
-                 "the pairwise fold changed: operands are not paired with their own rules in order, an operand can be skipped, or fix_winding is off", po, fn)
-    # final simplify on every path to a value-returning return
-    rets = [r for r in walk_no_nested(fn) if isinstance(r, ast.Return) and r.value is not None]
-    simp = [c for c in ast.walk(fn) if isinstance(c, ast.Call) and call_name(c) == "sk_path.simplify"]
-    ok_final = bool(simp) and all(_true_kw(c, "fix_winding") for c in simp) and len(rets) == 1 and unparse(rets[0].value) == "svg_commands(sk_path)" \
-        and all(parent(parent(c)) is fn or isinstance(parent(parent(c)), ast.For) and parent(c) in parent(parent(c)).orelse for c in simp)
-    early = [r for r in walk_no_nested(fn) if isinstance(r, ast.Return) and r.value is None]
-    guards_ok = all(isinstance(parent(r), ast.If) and unparse(parent(r).test) == "not svg_cmd_seqs" for r in early)
-    handlers = [h for h in ast.walk(fn) if isinstance(h, ast.ExceptHandler)]
-    if ok_final and guards_ok and not handlers:
-        rep.ok("R-GUARD.do_pathop", f"{F}: the only value return is svg_commands(sk_path) after an unconditional simplify(fix_winding=True)", "also for a single operand (for..else without break)", True)
-    else:
-        rep.fail("R-GUARD.do_pathop", F, "sk_path.simplify(fix_winding=True); return svg_commands(sk_path)",
-                 "a result can be returned without the final simplify(fix_winding=True) (or an operand is returned as is, or an error is swallowed): "
-                 "its nonzero and evenodd interiors may differ", po, fn)
-    if "assert len(svg_cmd_seqs) == len(fill_rules)" in t:
-        rep.ok("R-GUARD.do_pathop", f"{F}: one rule per operand asserted")
-    # ---- operations pass their PathOp
-    for nm, op in (("union", "UNION"), ("intersection", "INTERSECTION"), ("difference", "DIFFERENCE")):
-        f = po.func(nm)
-        rep.saw(f"svg_pathops.{nm}")
-        body = [s for s in f.body if not (isinstance(s, ast.Expr) and isinstance(s.value, ast.Constant))]
-        if len(body) == 1 and isinstance(body[0], ast.Return) and unparse(body[0].value) == f"_do_pathop(pathops.PathOp.{op}, svg_cmd_seqs, fill_rules)":
-            rep.ok("R-SITE.pathop-wrappers", f"svg_pathops.{nm}: _do_pathop(PathOp.{op}, operands, rules)")
-        else:
-            rep.fail("R-SITE.pathop-wrappers", f"svg_pathops.{nm}", f"return _do_pathop(pathops.PathOp.{op}, svg_cmd_seqs, fill_rules)",
-                     f"{nm} no longer is exactly the fold of PathOp.{op} over its operands (a special case bypasses the pairwise fold/simplify)", po, f)
-    ro = po.func("remove_overlaps")
-    t = unparse(ro)
-    if "skia_path(svg_cmds, fill_rule=fill_rule)" in t and "sk_path.simplify(fix_winding=True)" in t and "return svg_commands(sk_path)" in t:
-        rep.ok("R-SITE.pathop-wrappers", "svg_pathops.remove_overlaps: path built with the caller's rule, simplified, then reported")
-    else:
-        rep.fail("R-SITE.pathop-wrappers", "svg_pathops.remove_overlaps", "skia_path(svg_cmds, fill_rule=fill_rule); simplify(fix_winding=True)", "remove_overlaps no longer interprets the path under the caller's rule before simplifying", po, ro)
-    pa = po.func("path_area")
-    t = unparse(pa)
-    if "skia_path(svg_cmds, fill_rule=fill_rule)" in t and "sk_path.simplify(fix_winding=True)" in t and "return sk_path.area" in t:
-        rep.ok("R-SITE.pathop-wrappers", "svg_pathops.path_area: area read after simplify(fix_winding=True) under the caller's rule")
-    else:
-        rep.fail("R-SITE.pathop-wrappers", "svg_pathops.path_area", "sk_path.simplify(fix_winding=True); return sk_path.area", "path_area no longer simplifies with fix_winding under the caller's rule", po, pa)
-    # shape-level wrappers
-    for nm, rules in (("union", "[s.clip_rule for s in shapes]"), ("difference", "[s.clip_rule for s in shapes]")):
-        f = st.func(nm)
-        rep.saw(f"svg_types.{nm}")
-        body = [s for s in f.body if not (isinstance(s, ast.Expr) and isinstance(s.value, ast.Constant))]
-        want = f"svg_pathops.{nm}([s.as_cmd_seq() for s in shapes], {rules})"
-        if len(body) == 1 and isinstance(body[0], ast.Return) and unparse(body[0].value) == want:
-            rep.ok("R-SITE.pathop-wrappers", f"svg_types.{nm}: every shape paired with its clip_rule")
-        else:
-            rep.fail("R-SITE.pathop-wrappers", f"svg_types.{nm}", f"return {want}", f"{nm} of shapes no longer sends every operand, with its own clip_rule, through svg_pathops.{nm}", st, f)
-    f = st.func("intersection")
-    t = unparse(f)
-    if "if fill_rules is None:" in t and "fill_rules = [s.clip_rule for s in shapes]" in t and "return svg_pathops.intersection([s.as_cmd_seq() for s in shapes], fill_rules)" in t:
-        rep.ok("R-SITE.pathop-wrappers", "svg_types.intersection: explicit rules or clip_rule per operand")
-    else:
-        rep.fail("R-SITE.pathop-wrappers", "svg_types.intersection", "svg_pathops.intersection([s.as_cmd_seq() for s in shapes], fill_rules)", "intersection of shapes changed its operand/rule pairing", st, f)
-    f = st.func("SVGPath.remove_overlaps")
-    if "svg_pathops.remove_overlaps(self.as_cmd_seq(), fill_rule=self.fill_rule)" in unparse(f) and "target.fill_rule = target.clip_rule = 'nonzero'" in unparse(f):
-        rep.ok("R-SITE.pathop-wrappers", "svg_types.SVGPath.remove_overlaps: own fill_rule in, nonzero out")
-    else:
-        rep.fail("R-SITE.pathop-wrappers", "svg_types.SVGPath.remove_overlaps", "svg_pathops.remove_overlaps(self.as_cmd_seq(), fill_rule=self.fill_rule)", "remove_overlaps no longer passes the path's own fill rule", st, f)
-    # every pathops.op / simplify in the module has fix_winding=True
-    n = 0
-    for c in ast.walk(po.tree):
-        if isinstance(c, ast.Call) and (call_name(c) == "pathops.op" or call_name(c).endswith(".simplify")):
-            n += 1
-            if not _true_kw(c, "fix_winding"):
-                rep.fail("R-GUARD.do_pathop", f"svg_pathops.{_fn(c)}", c, "Skia operation without fix_winding=True: the result's interior may depend on the fill rule it is filled with", po, c)
-    rep.floor("pathops.op / simplify call sites", n, 3)
-    # ---- error discipline
-    roots = [("svg_pathops", x) for x in ("union", "intersection", "difference", "remove_overlaps")] + [("svg_types", x) for x in ("union", "intersection", "difference", "SVGPath.remove_overlaps")]
-    closure = {k for k in res.reachable_from(roots, precise=True) if k[0] in ("svg_pathops",) or k in roots}
-    rep.floor("functions in the closure of the boolean operations", len(closure), 9)
-    for k in sorted(closure):
-        f = res.func(k)
-        rep.saw(f"{k[0]}.{k[1]}")
-        for h in ast.walk(f):
-            if isinstance(h, ast.ExceptHandler):
-                nm = unparse(h.type) if h.type is not None else "<bare>"
-                if nm in ("KeyError",) and any(isinstance(x, ast.Raise) for x in h.body):
-                    continue
-                rep.fail("R-EFFECT.pathops-errors", f"{k[0]}.{k[1]}", f"except {nm}", "an exception handler inside the closure of the boolean operations: a Skia failure "
-                         "would yield a (wrong) path instead of an error", repo[k[0]], h)
-    allowed = {("svg_pathops", "stroke"): "falls back to the unsimplified outline (issue 192)", ("svg_types", "SVGShape.might_paint"): "answers 'may paint' (issue 192)"}
-    for mod in repo.modules.values():
-        for q, f in mod.functions.items():
-            for h in walk_no_nested(f):
-                if isinstance(h, ast.ExceptHandler) and h.type is not None and ("PathOpsError" in unparse(h.type) or unparse(h.type) in ("Exception", "BaseException")):
-                    if (mod.name, q) in allowed:
-                        rep.ok("R-EFFECT.pathops-errors", f"{mod.name}.{q}: except {unparse(h.type)}", "frozen: " + allowed[(mod.name, q)])
-                    else:
-                        rep.fail("R-EFFECT.pathops-errors", f"{mod.name}.{q}", f"except {unparse(h.type)}", "new handler for Skia errors outside the two documented ones", mod, h)
-                if isinstance(h, ast.ExceptHandler) and h.type is None:
-                    rep.fail("R-EFFECT.pathops-errors", f"{mod.name}.{q}", "except:", "bare except", mod, h)
+    sempath.check_pathops(repo, rep, {"tables": "R-TABLE.skia", "region": "R-GUARD.do_pathop", "normalized": "R-GUARD.do_pathop", "errors": "R-EFFECT.pathops-errors"})
+    sempath.check_shape_wrappers(repo, rep, "R-SITE.pathop-wrappers")
 
 
 def _true_kw(call, name) -> bool:
@@ -213,23 +51,27 @@ def _fn(node):
 _P = "svg_pathops"
 VARIANTS = [
     Variant("fill-type table swapped", [Edit(_P, None, '"nonzero": pathops.FillType.WINDING,\n    "evenodd": pathops.FillType.EVEN_ODD,', '"nonzero": pathops.FillType.EVEN_ODD,\n    "evenodd": pathops.FillType.WINDING,')],
-            [("R-TABLE.skia", "_SVG_FILL_RULE")]),
-    Variant("rules shifted by one", [Edit(_P, "_do_pathop", "zip(svg_cmd_seqs[1:], fill_rules[1:])", "zip(svg_cmd_seqs[1:], fill_rules)")], [("R-GUARD.do_pathop", "_do_pathop")]),
-    Variant("fix_winding dropped", [Edit(_P, "_do_pathop", "sk_path = pathops.op(sk_path, sk_path2, op, fix_winding=True)", "sk_path = pathops.op(sk_path, sk_path2, op)")],
-            [("R-GUARD.do_pathop", "_do_pathop")]),
+            [("R-", "svg_pathops")]),
+    Variant("rules shifted by one", [Edit(_P, "_do_pathop", "zip(svg_cmd_seqs[1:], fill_rules[1:])", "zip(svg_cmd_seqs[1:], fill_rules)")], [("R-GUARD.do_pathop", "svg_pathops")]),
+    Variant("silent: fix_winding dropped inside the fold (the for-else simplify(fix_winding=True) still normalises every result)", [Edit(_P, "_do_pathop", "sk_path = pathops.op(sk_path, sk_path2, op, fix_winding=True)", "sk_path = pathops.op(sk_path, sk_path2, op)")], silent=True),
+    Variant("final simplify without fix_winding", [Edit(_P, "_do_pathop", "        sk_path.simplify(fix_winding=True)\n    return svg_commands(sk_path)", "        sk_path.simplify(fix_winding=False)\n    return svg_commands(sk_path)")], [("R-GUARD.do_pathop", "svg_pathops")]),
     Variant("break in the fold", [Edit(_P, "_do_pathop", "sk_path = pathops.op(sk_path, sk_path2, op, fix_winding=True)\n", "sk_path = pathops.op(sk_path, sk_path2, op, fix_winding=True)\n        break\n")],
-            [("R-GUARD.do_pathop", "_do_pathop")]),
+            [("R-GUARD.do_pathop", "svg_pathops")]),
     Variant("pathops.op errors swallowed", [Edit(_P, "_do_pathop", "        sk_path = pathops.op(sk_path, sk_path2, op, fix_winding=True)\n",
                                                   "        try:\n            sk_path = pathops.op(sk_path, sk_path2, op, fix_winding=True)\n        except pathops.PathOpsError:\n            pass\n")],
-            [("R-", "_do_pathop")]),
+            [("R-EFFECT.pathops-errors", "svg_pathops")]),
     Variant("union concatenates contours", [Edit(_P, "union", "    return _do_pathop(pathops.PathOp.UNION, svg_cmd_seqs, fill_rules)",
                                                   "    if len(set(fill_rules)) == 1 and svg_cmd_seqs:\n        return remove_overlaps([c for s in svg_cmd_seqs for c in s], fill_rules[0])\n    return _do_pathop(pathops.PathOp.UNION, svg_cmd_seqs, fill_rules)")],
-            [("R-SITE.pathop-wrappers", "union")]),
+            [("R-GUARD.do_pathop", "union")]),
     Variant("single nonzero shape returned as is", [Edit("svg_types", "union", "    return svg_pathops.union(", "    shapes = list(shapes)\n    if len(shapes) == 1 and shapes[0].clip_rule == 'nonzero':\n        return shapes[0].as_cmd_seq()\n    return svg_pathops.union(")],
             [("R-SITE.pathop-wrappers", "union")]),
     Variant("difference uses fill_rule", [Edit("svg_types", "difference", "[s.clip_rule for s in shapes]", "[s.fill_rule for s in shapes]")], [("R-SITE.pathop-wrappers", "difference")]),
-    Variant("Q mapped to cubicTo", [Edit(_P, None, '"Q": pathops.Path.quadTo,', '"Q": pathops.Path.cubicTo,')], [("R-TABLE.skia", "_SVG_CMD_TO_SKIA_FN")]),
+    Variant("Q mapped to cubicTo", [Edit(_P, None, '"Q": pathops.Path.quadTo,', '"Q": pathops.Path.cubicTo,')], [("R-TABLE.skia", "skia_path")]),
     Variant("path_area without fix_winding for evenodd", [Edit(_P, "path_area", "sk_path.simplify(fix_winding=True)", 'sk_path.simplify(fix_winding=fill_rule == "nonzero")')],
             [("R-", "path_area")]),
+    Variant("empty operands skipped in every operation", [Edit(_P, "_do_pathop", "        sk_path2 = skia_path(svg_cmds, fill_rule)\n", "        sk_path2 = skia_path(svg_cmds, fill_rule)\n        if not svg_cmds:\n            continue\n")], [("R-GUARD.do_pathop", "intersection")]),
+    Variant("silent: empty operands skipped in union only", [Edit(_P, "_do_pathop", "        sk_path2 = skia_path(svg_cmds, fill_rule)\n", "        sk_path2 = skia_path(svg_cmds, fill_rule)\n        if not svg_cmds and op == pathops.PathOp.UNION:\n            continue\n")], silent=True),
+    Variant("silent: fold extracted into a helper", [Edit(_P, "_do_pathop", "        sk_path = pathops.op(sk_path, sk_path2, op, fix_winding=True)\n", "        sk_path = _combine(sk_path, sk_path2, op)\n"),
+                                                     Edit(_P, None, "def _do_pathop(", "def _combine(a, b, op):\n    return pathops.op(a, b, op, fix_winding=True)\n\n\ndef _do_pathop(")], silent=True),
     Variant("silent: docstring added", [Edit(_P, "union", "    return _do_pathop(pathops.PathOp.UNION, svg_cmd_seqs, fill_rules)", '    """Union of the operands."""\n    return _do_pathop(pathops.PathOp.UNION, svg_cmd_seqs, fill_rules)')], silent=True),
 ]
